@@ -106,12 +106,17 @@ func (c *concCtx) scenarioClose(bufsz uint, consumer string, pending string) {
 	check(w.Add(dir))
 	check(w.Add(f))
 
-	// consumer
+	// consumer (paused during an overflow burst, so that the kernel queue really fills up)
+	gate := make(chan struct{})
+	if pending != "overflow" {
+		close(gate)
+	}
 	stop := make(chan struct{})
 	var evDone, erDone atomic.Bool
 	var nEv, nEr atomic.Int64
 	var lateSend atomic.Bool
 	go func() {
+		<-gate
 		ev, er := w.Events, w.Errors
 		if consumer == "onlyErrors" || consumer == "neither" {
 			ev = nil
@@ -132,7 +137,7 @@ func (c *concCtx) scenarioClose(bufsz uint, consumer string, pending string) {
 				if evDone.Load() {
 					lateSend.Store(true)
 				}
-				if consumer == "stopsMidway" && nEv.Add(1) > 3 {
+				if nEv.Add(1) > 3 && consumer == "stopsMidway" {
 					return
 				}
 			case _, ok := <-er:
@@ -162,9 +167,21 @@ func (c *concCtx) scenarioClose(bufsz uint, consumer string, pending string) {
 		for i := 0; i < 17500; i++ {
 			os.WriteFile(filepath.Join(dir, fmt.Sprintf("o%d", i%40)), nil, 0o644)
 		}
+		close(gate)
 	case "idle":
 	}
-	time.Sleep(20 * time.Millisecond)
+	// let the reader get as far as it can with this consumer: wait until nothing has been
+	// received for a while (the interesting states are the ones where it is parked in a send)
+	last, stable := int64(-1), 0
+	for i := 0; i < 600 && stable < 6; i++ {
+		cur := nEv.Load() + nEr.Load()
+		if cur == last {
+			stable++
+		} else {
+			stable, last = 0, cur
+		}
+		time.Sleep(5 * time.Millisecond)
+	}
 
 	ok := c.within("C05", "C05:watchlist-blocked", name+": WatchList did not return", func() { w.WatchList() })
 	ok = ok && c.within("C05", "C05:add-blocked", name+": Add did not return", func() { w.Add(dir) })
@@ -568,6 +585,44 @@ func (c *concCtx) scenarioIndependence(g *rng, nw int) {
 	c.r.emit("scenario", fmt.Sprintf("scenario independence watchers=%d", nw), "ok")
 }
 
+// scenarioStaleHandle: C14 / C06 — calls on a closed Watcher are inert: they must not reach a newer
+// Watcher that happens to have been handed the same descriptor number.
+func (c *concCtx) scenarioStaleHandle() {
+	dir, err := os.MkdirTemp("", "fsnverif-stale")
+	check(err)
+	defer os.RemoveAll(dir)
+	for round := 0; round < 20; round++ {
+		a, err := fsnotify.NewWatcher()
+		check(err)
+		check(a.Add(dir))
+		a.Close()
+		b, err := fsnotify.NewWatcher() // usually gets the descriptor number a had
+		check(err)
+		check(b.Add(dir))
+		a.Remove(dir)
+		a.Add(dir)
+		a.WatchList()
+		p := filepath.Join(dir, fmt.Sprintf("s%d", round))
+		os.WriteFile(p, nil, 0o644)
+		select {
+		case e := <-b.Events:
+			if e.Name != p {
+				c.report("C14", "C14:other-watcher-disturbed", fmt.Sprintf("unexpected event %v on the live Watcher", e), map[string]interface{}{})
+			}
+		case <-time.After(2 * time.Second):
+			c.report("C14", "C14:other-watcher-disturbed", "Remove/Add on a CLOSED Watcher silenced a different, live Watcher on the same directory (stale descriptor number reused)",
+				map[string]interface{}{"history": []string{"A.Add(dir)", "A.Close()", "B := NewWatcher()", "B.Add(dir)", "A.Remove(dir)", "create file", "B gets nothing"}})
+			b.Close()
+			return
+		}
+		if l := b.WatchList(); len(l) != 1 {
+			c.report("C14", "C14:other-watcher-disturbed", fmt.Sprintf("live Watcher's WatchList = %v after calls on a closed one", l), map[string]interface{}{})
+		}
+		b.Close()
+	}
+	c.r.emit("scenario", "scenario stale_handle", "ok")
+}
+
 // scenarioAbsorb: C14 — a buffered Watcher absorbs `sz` events with no consumer and delivers them intact later.
 func (c *concCtx) scenarioAbsorb(sz uint) {
 	dir, err := os.MkdirTemp("", "fsnverif-abs")
@@ -712,6 +767,7 @@ func runConc(r *rec, g *rng, tier, what, out string, extra map[string]interface{
 		for _, nw := range []int{1, 2, 3, 5, 8} {
 			c.scenarioIndependence(g, nw)
 		}
+		c.scenarioStaleHandle()
 		szs := []uint{1, 2, 4, 64}
 		if thorough {
 			szs = []uint{1, 2, 4, 8, 16, 64, 256, 1024, 4096}
